@@ -22,14 +22,16 @@ from dep_logic.markers import AnyMarker, EmptyMarker  # noqa: E402
 THEOREMS_BY_PROP = {
     "C11": ["DepLogic.C11.coherent_plain", "DepLogic.C11.coherent_clean", "DepLogic.C11.coherent_reversed",
             "DepLogic.C11.lexOne_of_clean", "DepLogic.M.fromSpecOk_of_lex", "DepLogic.M.pyMergeOk_of_fromSpec",
-            "DepLogic.M.normGood_of_lex", "DepLogic.pyNorm_sem", "DepLogic.pad_one",
+            "DepLogic.M.normGood_of_lex", "DepLogic.pyNorm_sem", "DepLogic.pad_one", "DepLogic.M.lexPrint_final",
+            "DepLogic.M.lexNorm_final", "DepLogic.C02.bridge",
             "DepLogic.C04.leaf_exact"],
     "C13": ["DepLogic.C13.spec_refl", "DepLogic.C13.spec_symm", "DepLogic.C13.spec_trans", "DepLogic.C13.spec_hash",
             "DepLogic.C13.spec_interchangeable", "DepLogic.C13.eq_of_beq", "DepLogic.C13.marker_equivalence",
             "DepLogic.C13.marker_congruence", "DepLogic.C13.marker_eval_congr"],
     "C14": ["DepLogic.C14.and_comm", "DepLogic.C14.or_comm", "DepLogic.C14.and_assoc", "DepLogic.C14.or_assoc",
             "DepLogic.C14.and_idem", "DepLogic.C14.or_idem", "DepLogic.C14.absorb_and_or", "DepLogic.C14.absorb_or_and",
-            "DepLogic.C14.and_or_distrib", "DepLogic.C14.or_and_distrib", "DepLogic.C14.spec_and_comm_mem",
+            "DepLogic.C14.and_or_distrib", "DepLogic.C14.or_and_distrib", "DepLogic.C14.marker_laws_final",
+            "DepLogic.C14.spec_and_comm_mem",
             "DepLogic.C14.spec_and_assoc_mem", "DepLogic.C14.spec_and_idem_mem", "DepLogic.C14.spec_or_comm_mem",
             "DepLogic.C14.spec_or_idem_mem", "DepLogic.C14.spec_absorb_mem", "DepLogic.C14.spec_distrib_mem",
             "DepLogic.C14.spec_invert_involution_mem", "DepLogic.C14.spec_de_morgan_and_mem",
